@@ -47,7 +47,7 @@ type Case struct {
 	Zone string `json:"zone,omitempty"`
 	// Route: how the date values of the case come into being: 0 New, 1 UnmarshalBinary of the seven-byte form, 2 FromTime of a
 	// UTC time, 3 the text parser (UnmarshalText; four-digit years, otherwise as 1), 4 New(...).Add(0, 0, 0), 5 json.Unmarshal
-	// (as 3), 6 FromTime of a time in a zone 14 hours ahead. Where a value comes from must not matter to what it does. In pair cases
+	// (as 3), 6 FromTime of a time in a zone 14 hours ahead, 7 / 8 a variable that held another date, overwritten in place by the method form of FromTime / by Scan. Where a value comes from must not matter to what it does. In pair cases
 	// the route applies to A; B always comes from New.
 	Route int `json:"constructed_via,omitempty"`
 }
@@ -79,7 +79,7 @@ func mk(c Case, w *vkit.W, v YMD) (date.Date, bool) {
 	if (route == 3 || route == 5) && (v.Y < 0 || v.Y > 9999) {
 		route = 1
 	}
-	if (route == 2 || route == 6) && (v.Y < -200000000 || v.Y > 200000000) {
+	if (route == 2 || route == 6 || route == 7 || route == 8) && (v.Y < -200000000 || v.Y > 200000000) {
 		route = 1
 	}
 	if route == 1 && (v.Y < -999999999 || v.Y > 999999999) {
@@ -103,6 +103,19 @@ func mk(c Case, w *vkit.W, v YMD) (date.Date, bool) {
 		err = json.Unmarshal([]byte(`"`+ref.DateText(v.Y, v.M, v.D, false)+`"`), &d)
 	case 6:
 		d = date.FromTime(time.Date(int(v.Y), time.Month(v.M), v.D, 0, 0, 0, 0, time.FixedZone("ahead", 14*3600)))
+	case 7, 8:
+		// a variable that held another date is given the value in place: through the method form of FromTime, or through Scan
+		// (for the zero date with the zero time, which both are documented to turn into the zero date)
+		d = date.New(int(v.Y%5000)+2000, date.Month(1+(v.M+5)%12), 1+(v.D+11)%28)
+		t := time.Date(int(v.Y), time.Month(v.M), v.D, 12, 0, 0, 0, time.UTC)
+		if (v == YMD{1, 1, 1}) {
+			t = time.Time{}
+		}
+		if route == 7 {
+			d.FromTime(t)
+		} else {
+			err = d.Scan(t)
+		}
 	}
 	if err != nil {
 		w.Fail(c, "constructor", fmt.Sprintf("construction route %d of %v failed: %v", route, v, err))
@@ -348,7 +361,7 @@ func TestCheck(t *testing.T) {
 		sub := boundarySet(320)
 		sub = append(sub, YMD{2004, 2, 29}, YMD{2004, 3, 1}, YMD{2004, 12, 31}, YMD{2005, 1, 1}, YMD{2005, 3, 1}, YMD{1, 1, 1}, YMD{1, 1, 2}, YMD{0, 12, 31}, YMD{-1, 3, 1}, YMD{10000, 3, 1}, YMD{123456789, 2, 28})
 		ns := int64(len(sub))
-		for route := 1; route <= 6; route++ {
+		for route := 1; route <= 8; route++ {
 			route := route
 			r.Parallel(ns*ns, ns, func(w *vkit.W, lo, hi int64) {
 				for k := lo; k < hi; k++ {
@@ -388,7 +401,7 @@ func TestCheck(t *testing.T) {
 				if a.M == 2 && a.D == 29 {
 					sameNextYear.D = 28
 				}
-				for route := 1; route <= 6; route++ {
+				for route := 1; route <= 8; route++ {
 					for _, b := range []YMD{a, next, sameNextYear} {
 						c := Case{Kind: "pair", A: a, B: b, Route: route}
 						judge(c, w)
